@@ -25,7 +25,7 @@ TIERS = {
 }
 
 
-RUN_TIMEOUT = 300.0
+RUN_TIMEOUT = 1800.0  # a stuck run takes its worker down (harness error); slow runs are not stuck
 SHRINK_WALL = 45.0  # seconds of minimisation per reported violation
 SHRINK_TOTAL = 150.0  # ... and per check
 
